@@ -89,7 +89,7 @@ mod k {
         (ty << 1) | (kani::any::<u8>() & 1)
     }
 
-    /// VERIF: {"p":"C05","tier":"quick","fns":["lldp::lldppkt::LldpTlv::from_wire","lldp::lldppkt::{ChassisId,PortId,Ttl,SystemCapabilities,OrganizationSpecific,UnknownTlv}::from_wire","lldp::lldppkt::{ChassisIdType,PortIdType}::from_wire"],"bounds":"single TLV in an 8-octet frame, type in {0,1,2,3,7,127,9(unknown)} with both values of the 9th length bit, declared length in {0,1,2,3,4,5,6,7(past the end)}; all payload octets symbolic","oracle":"Ok or Err: no panic; an accepted TLV lies inside the frame","stubs":["alloc::fmt::format -> empty string (error text only)"],"covers":1,"unwind":10}
+    /// VERIF: {"p":"C05","tier":"thorough","fns":["lldp::lldppkt::LldpTlv::from_wire","lldp::lldppkt::{ChassisId,PortId,Ttl,SystemCapabilities,OrganizationSpecific,UnknownTlv}::from_wire","lldp::lldppkt::{ChassisIdType,PortIdType}::from_wire"],"bounds":"single TLV in an 8-octet frame, type in {0,1,2,3,7,127,9(unknown)} with both values of the 9th length bit, declared length in {0,1,2,3,4,5,6,7(past the end)}; all payload octets symbolic","oracle":"Ok or Err: no panic; an accepted TLV lies inside the frame","stubs":["alloc::fmt::format -> empty string (error text only)"],"covers":1,"unwind":10}
     #[kani::proof]
     #[kani::unwind(10)]
     #[kani::stub(alloc::fmt::format, empty_format)]
@@ -107,7 +107,7 @@ mod k {
         }
     }
 
-    /// VERIF: {"p":"C05","tier":"quick","fns":["lldp::lldppkt::LldpTlv::from_wire"],"bounds":"truncated frames of 0,1,2,3 octets holding a TLV header that declares 0, 1 or 2 payload octets, types as in c05_lldp_tlv_binary_types","oracle":"Ok or Err: no panic","stubs":["alloc::fmt::format -> empty string (error text only)"],"covers":1,"unwind":10}
+    /// VERIF: {"p":"C05","tier":"thorough","fns":["lldp::lldppkt::LldpTlv::from_wire"],"bounds":"truncated frames of 0,1,2,3 octets holding a TLV header that declares 0, 1 or 2 payload octets, types as in c05_lldp_tlv_binary_types","oracle":"Ok or Err: no panic","stubs":["alloc::fmt::format -> empty string (error text only)"],"covers":1,"unwind":10}
     #[kani::proof]
     #[kani::unwind(10)]
     #[kani::stub(alloc::fmt::format, empty_format)]
@@ -125,7 +125,7 @@ mod k {
         }
     }
 
-    /// VERIF: {"p":"C05","tier":"quick","fns":["lldp::lldppkt::LldpTlv::from_wire","lldp::lldppkt::{PortDescription,SystemName,SystemDescription}::from_wire","alloc::string::String::from_utf8"],"bounds":"text TLVs (types 4,5,6) with declared length 0..=3 inside a 5-octet frame, text octets symbolic (any byte values, valid or invalid UTF-8)","oracle":"Ok or Err: no panic","stubs":["alloc::fmt::format -> empty string"],"covers":1,"unwind":8}
+    /// VERIF: {"p":"C05","tier":"thorough","fns":["lldp::lldppkt::LldpTlv::from_wire","lldp::lldppkt::{PortDescription,SystemName,SystemDescription}::from_wire","alloc::string::String::from_utf8"],"bounds":"text TLVs (types 4,5,6) with declared length 0..=3 inside a 5-octet frame, text octets symbolic (any byte values, valid or invalid UTF-8)","oracle":"Ok or Err: no panic","stubs":["alloc::fmt::format -> empty string"],"covers":1,"unwind":8}
     #[kani::proof]
     #[kani::unwind(8)]
     #[kani::stub(alloc::fmt::format, empty_format)]
@@ -157,7 +157,7 @@ mod k {
         std::mem::forget(r);
     }
 
-    /// VERIF: {"p":"C05","tier":"quick","fns":["lldp::lldppkt::LldpPacket::from_wire","lldp::lldppkt::LldpTlv::from_wire"],"bounds":"every truncation point 0..=9 of the 9-octet frame [TTL(2 octets), unknown type 9 (1 octet), End]; TTL and unknown payload symbolic","oracle":"Ok only if an End TLV was reached, otherwise Err; never panics, loop terminates","stubs":["alloc::fmt::format -> empty string"],"covers":1,"unwind":12}
+    /// VERIF: {"p":"C05","tier":"thorough","fns":["lldp::lldppkt::LldpPacket::from_wire","lldp::lldppkt::LldpTlv::from_wire"],"bounds":"every truncation point 0..=9 of the 9-octet frame [TTL(2 octets), unknown type 9 (1 octet), End]; TTL and unknown payload symbolic","oracle":"Ok only if an End TLV was reached, otherwise Err; never panics, loop terminates","stubs":["alloc::fmt::format -> empty string"],"covers":1,"unwind":12}
     #[kani::proof]
     #[kani::unwind(12)]
     #[kani::stub(alloc::fmt::format, empty_format)]
